@@ -70,7 +70,9 @@ func Snapshot() []G {
 
 // Markers identify the goroutines a case is responsible for: library frames and the harness's
 // own feeder / reader functions.
-var Markers = []string{"github.com/cinar/indicator/", "verif/harness/pipe.feed", "verif/harness/pipe.sink", "verif/harness/pipe.caseRoot", "verif/harness/props/"}
+// (pipe.Run / pipe.Call match the "created by" line: a goroutine that is running on another thread
+// while the dump is taken is printed as "stack unavailable" with that line only)
+var Markers = []string{"github.com/cinar/indicator/", "verif/harness/pipe.feed", "verif/harness/pipe.sink", "verif/harness/pipe.caseRoot", "verif/harness/props/", "verif/harness/pipe.Run", "verif/harness/pipe.Call", "verif/harness/reg.warm", "verif/harness/stub."}
 
 func relevant(g G) bool {
 	for _, m := range Markers {
